@@ -12,6 +12,8 @@ PROP = {
              # element type without drop glue but with an observable Clone (clone adds 2^20): a bitwise-copy
              # shortcut in GenericArrayIter::clone is invisible for u32
              {"tag": "c06cn", "bin": "c06", "args": ["--elem", "cn"], "num": 106},
+             # zero-sized elements (all values 0): how many elements fold / rfold / clone / Debug / nth visit
+             {"tag": "c06zs", "bin": "c06", "args": ["--elem", "zs"]},
              # next / next_back / nth / nth_back / len / size_hint / as_slice run through the programs
              # REGENERATED from src/iter.rs (GenRun.v)
              {"tag": "c06gen", "bin": "c06", "num": 206},
@@ -21,7 +23,7 @@ PROP = {
              {"tag": "c06huge", "bin": "c06", "args": ["--huge"], "model": False}],
     "mismatch_is_failing": True,
     "regen_files": ["GenIter.v", "GenSigs.v"],
-    "rule": "exhaustive: every reachable (front,back) position (directly and through clone) x every operation x every argument 0..=len+2 and usize::MAX for N<=5 (thorough: N<=8), followed by a fixed observation trailer; plus seeded histories over N in {0,1,2,3,5,8,16,97,1024}. distinct = distinct CASE lines; non-trivial = the array is non-empty (first integer > 0); fold / rfold of the iterator itself (not of a clone) from every (front, back) position; Debug with up to 97 elements still to come",
+    "rule": "exhaustive: every reachable (front,back) position (directly and through clone) x every operation x every argument 0..=len+2 and usize::MAX for N<=5 (thorough: N<=8), followed by a fixed observation trailer; plus seeded histories over N in {0,1,2,3,5,8,16,97,1024}; the same with an observable-Clone element (c06cn) and with a zero-sized element (c06zs: all values 0, what shows is how many elements each operation visits). distinct = distinct CASE lines; non-trivial = the array is non-empty (first integer > 0); fold / rfold of the iterator itself (not of a clone) from every (front, back) position; Debug with up to 97 elements still to come",
     "nontrivial": lambda case, obs: case.split()[0] != "0",
     "manifest": {
         "design_ref": "DESIGN.md section 7, C06",
